@@ -304,7 +304,7 @@ fn boundary_cases(tier: Tier) -> Vec<Case> {
         v.push(Case::new(prog.to_string(), 3, "targets, indices or bounds that reach the container being assigned".to_string()));
     }
     // text inside slots where a name or number touches a multi-byte character
-    for slot in ["x€", "1é", "xé + 1", "x😀x", "é", "\"é\"x", "x.é", "x[€]"] {
+    for slot in ["x€", "1é", "xé + 1", "x😀x", "é", "\"é\"x", "x.é", "x[€]", "x[\u{ff11}]", "\u{ff11}", "x + \u{b2}", "\u{bd}", "\u{663}", "1\u{ff11}", "x\u{ff11}", "\u{2167}", "\u{1d7ce}"] {
         v.push(Case::new(format!("x := \"v\"\nprint(\"pre\")\nprint($\"a${{{}}}b\")\n", slot), 3, format!("slot text {:?}", slot)));
     }
     // type functions stored in containers and reached through them
